@@ -283,7 +283,7 @@ Proof.
     destruct (find_long_visible cur flag) as [o|] eqn:Eo.
     - pose proof (args_ok_num _ _ Hok (find_long_visible_in _ _ _ Eo)) as Hn.
       destruct (a_num o) as [r|] eqn:En; [|tauto].
-      destruct (r_takes_values r && is_none value);
+      destruct (r_takes_values r && is_none value && negb (a_req_eq o));
         do 5 eexists; (split; [reflexivity|]); (split; [left; reflexivity|]); cbn; try exact I.
       rewrite En; discriminate.
     - destruct (pos_allows_hyphen cur pi);
@@ -293,7 +293,7 @@ Proof.
     destruct (parse_shortflags cur short) as [| |leading [o|] short'] eqn:E; try tauto.
     - unfold parse_shortflags in E. apply parse_shortflags_loop_opt in E.
       pose proof (args_ok_num _ _ Hok E) as Hn.
-      destruct (is_none (next_value_os short'));
+      destruct (is_none (next_value_os short') && negb (a_req_eq o));
         do 5 eexists; (split; [reflexivity|]); (split; [left; reflexivity|]); cbn; try exact I. assumption.
     - destruct (utf8_valid w && forallb (has_short cur) (decode leading)).
       { do 5 eexists; split; [reflexivity|]; split; [left; reflexivity|exact I]. }
